@@ -205,3 +205,150 @@ theorem cons_step (P : Par) (s s' : CS) (a : Act) (ha : a ≠ .tryPop) (hC : Con
     · cases h
 
 end Nv.C13
+
+namespace Nv.C13
+open Nv.C12
+
+/-! ### on an open queue every returned consumer carries an item -/
+
+def DoneVal (s : CS) : Prop := s.q.closed = false → ∀ d ∈ s.done, ∃ v, d.2 = .val v
+
+theorem takeFront_val (sh : Shape) (s : LQ) (hne : s.size ≠ 0) : ∃ v, (takeFront sh s).2 = .val v := by
+  unfold takeFront
+  cases sh.ctrlFirst <;> cases hc : s.ctrl <;> cases hr : s.req <;> simp [LQ.size, hc, hr] at hne ⊢
+
+theorem attempt_val (k : Kind) (sh : Shape) (a : Bool) (q : LQ) (r : LQ × Out) (h : attempt k sh a q = some r)
+    (ho : q.closed = false) : ∃ v, r.2 = .val v := by
+  unfold attempt at h
+  cases k <;> simp only at h
+  case syncq =>
+    unfold syncPopNow at h
+    cases hr : q.req with
+    | nil => simp [hr, ho] at h
+    | cons x rest => simp [hr] at h; subst h; exact ⟨x, rfl⟩
+  all_goals
+    unfold popNow at h
+    cases he : q.isEmpty with
+    | true => simp [he, ho] at h
+    | false =>
+      have hne : q.size ≠ 0 := fun h0 => by rw [(isEmpty_iff q).2 h0] at he; cases he
+      simp only [he, Bool.false_eq_true, if_false, ho, Bool.and_false] at h
+      simp at h; subst h
+      exact takeFront_val sh q hne
+
+theorem doneVal_enter (k : Kind) (sh : Shape) (t : Tid) (a : Bool) (s : CS) (h : DoneVal s) : DoneVal (enter k sh t a s) := by
+  unfold enter
+  cases hat : attempt k sh a s.q with
+  | none => exact h
+  | some r =>
+    intro hc d hd
+    have hcl := (attempt_some k sh a s.q r hat).1
+    simp only at hc hd
+    rw [hcl] at hc
+    rcases List.mem_cons.1 hd with rfl | hd
+    · exact attempt_val k sh a s.q r hat hc
+    · exact h hc d hd
+
+/-- every step keeps "open ⇒ all returned consumers carry an item" (closed is never reset, `step_closed`) -/
+theorem doneVal_step (P : Par) (s s' : CS) (a : Act) (hD : DoneVal s) (h : step P s a = some s') : DoneVal s' := by
+  have back : s'.q.closed = false → s.q.closed = false := by
+    intro h'
+    cases hc : s.q.closed with
+    | false => rfl
+    | true => rw [step_closed P s s' a h hc] at h'; cases h'
+  -- steps that leave `done` alone
+  have keep : s'.done = s.done → DoneVal s' := fun hd hc d hm => hD (back hc) d (by rw [← hd]; exact hm)
+  cases a with
+  | popCall t anyway =>
+    simp only [step] at h
+    split at h
+    · split at h
+      · cases h
+      · cases h; exact doneVal_enter _ _ _ _ s hD
+    · cases h
+  | resume t =>
+    simp only [step] at h
+    split at h
+    · cases h; exact doneVal_enter _ _ _ _ _ (fun hc d hd => hD hc d hd)
+    · cases h
+  | add x w =>
+    apply keep
+    simp only [step] at h
+    cases hk : P.kind <;> simp only [hk] at h
+    case syncq =>
+      split at h
+      · cases h; rfl
+      · exact (wake_q _ w _ s' h).2.1
+    all_goals
+      unfold addLike at h
+      split at h
+      · exact (wake_q _ w _ s' h).2.1
+      · cases h; rfl
+  | prior x w =>
+    apply keep
+    simp only [step] at h
+    cases hk : P.kind <;> simp only [hk] at h
+    case syncq => cases h
+    all_goals
+      unfold addLike at h
+      split at h
+      · exact (wake_q _ w _ s' h).2.1
+      · cases h; rfl
+  | addCtrl x w =>
+    apply keep
+    simp only [step] at h
+    cases hk : P.kind <;> simp only [hk] at h
+    case mq =>
+      unfold addLike at h
+      split at h
+      · exact (wake_q _ w _ s' h).2.1
+      · cases h; rfl
+    all_goals cases h
+  | priorCtrl x w =>
+    apply keep
+    simp only [step] at h
+    cases hk : P.kind <;> simp only [hk] at h
+    case mq =>
+      unfold addLike at h
+      split at h
+      · exact (wake_q _ w _ s' h).2.1
+      · cases h; rfl
+    all_goals cases h
+  | close w =>
+    apply keep
+    simp only [step] at h
+    split at h
+    · cases h; rfl
+    · exact (wake_q _ w _ s' h).2.1
+  | tryClose w =>
+    apply keep
+    simp only [step] at h
+    cases hk : P.kind <;> simp only [hk] at h
+    case mq =>
+      split at h
+      · cases h; rfl
+      · split at h
+        · exact (wake_q _ w _ s' h).2.1
+        · cases h; rfl
+    all_goals cases h
+  | tryClear =>
+    apply keep
+    simp only [step] at h
+    cases hk : P.kind <;> simp only [hk] at h
+    case mq => cases h; rfl
+    all_goals cases h
+  | tryPop =>
+    apply keep
+    simp only [step] at h
+    cases hk : P.kind <;> simp only [hk] at h
+    case syncq => cases h; rfl
+    all_goals cases h
+
+theorem vals_length_of_all_val : ∀ (l : List (Tid × Out)), (∀ d ∈ l, ∃ v, d.2 = .val v) → (vals l).length = l.length
+  | [], _ => rfl
+  | (t, o) :: r, h => by
+    obtain ⟨v, hv⟩ := h (t, o) List.mem_cons_self
+    simp only at hv; subst hv
+    simp [vals, vals_length_of_all_val r (fun d hd => h d (List.mem_cons_of_mem _ hd))]
+
+end Nv.C13
